@@ -29,7 +29,10 @@ META = {
             "later than its deadline (exact virtual time), its status never changed, no panic (recovered in RPC goroutines; a crashed "
             "driver process is attributed to its behaviour by bisection), no goroutine left blocked after ClientConn.Close "
             "(testing/synctest's end-of-bubble deadlock check), no hang; predicted status codes are compared as drift only.",
-    "note": "Later connections opened by the channel (after a connection error or GOAWAY) are answered by a well-formed but silent "
+    "note": "The interleaving 'a new RPC is being created while the first GOAWAY is processed' is covered by free-running stress only "
+            "(60 / 400 behaviours per run with 4 goroutines invoking RPCs in a tight loop while the GOAWAY is written; a wedge is "
+            "reported by the driver's real-time watchdog): a probabilistic catch, not an enumeration of schedules. "
+            "Later connections opened by the channel (after a connection error or GOAWAY) are answered by a well-formed but silent "
             "server. No coverage-guided fuzzing: raw bytes are reached only by mutating grammar-generated streams.",
 }
 
@@ -158,6 +161,20 @@ def run(ctx):
         ctx.count(b, nontrivial=len(b["steps"]) >= 1)
     ctx.sample(behs[len(behs) // 2])
     if not phase_ok(ctx, tpath, "replay of TLC behaviours"):
+        return
+
+    # stress (free-running, not gated): behaviours with a GOAWAY are repeated with goroutines that start new RPCs on the same
+    # ClientConn in a tight loop at the instant the first GOAWAY is written; judged by the same generic clauses (a wedged
+    # transport is reported by the driver's real-time watchdog as a hang)
+    ga = [b for b in behs if any(st["v"] in ("G_max", "G_0", "G_1", "G_calm") for st in b["steps"])]
+    ctx.rng.shuffle(ga)
+    sbehs = [dict(b, stress=4) for b in ga[:ctx.pick(60, 400)]]
+    ctx.cov["behaviours_generated"] += len(sbehs)
+    tpath_s = os.path.join(ctx.run, "trace-stress.ndjson")
+    _peer.run_batched(ctx, binary, "TestVerifC11Replay", sbehs, tpath_s, "stress", batch=700, reset_fields=reset_fields)
+    for b in sbehs:
+        ctx.count(b)
+    if not phase_ok(ctx, tpath_s, "RPCs started concurrently with the first GOAWAY (stress)"):
         return
 
     n = ctx.pick(600, 6000)
